@@ -76,6 +76,8 @@ def digest(obj, style=True, label=True):
     for a in MESH:
         if hasattr(obj, a):
             d.append((a, getattr(obj, a)))
+            v = getattr(obj, a + "_data", None)   # e.g. the array of open edges stored by check_open()
+            d.append((a + "_data", arr(np.asarray(v)) if v is not None else None))
     if hasattr(obj, "_handedness"):
         d.append(("hand", obj._handedness))
     if hasattr(obj, "_field_func"):
